@@ -148,13 +148,18 @@ def r1_table(rep, ctx):
     ares = Resolver(m, ac)
     seen2 = {}
     for a in own_nodes(ac.node):
-        if not (isinstance(a, ast.Assert) and isinstance(a.test, ast.Compare) and len(a.test.ops) == 1 and type(a.test.ops[0]) in OPS):
+        if not isinstance(a, ast.Assert):
             continue
-        l = ares.term(a.test.left)
+        # (by terms: `default_value > min_value`, operator.gt(default_value, min_value) and an entry of a constant
+        # table of comparisons applied to them are the same assertion)
+        tt = ares.term(a.test)
+        if not (tt[0] == "op" and tt[1] in TOPS and len(tt[2]) == 2):
+            continue
+        l = tt[2][0]
         if not any(x[0] == "param" and x[2] == "default_value" for x in alternatives(l)) and not any(s[0] == "attr" and s[2] == "default_value" for s in walk(l)):
             continue
-        op = OPS[type(a.test.ops[0])]
-        kind = _limit_kind(ares.term(a.test.comparators[0]))
+        op = TOPS[tt[1]]
+        kind = _limit_kind(tt[2][1])
         ifs = _enclosing_ifs(a, ac.node)
         excl = _excl_flag(ifs, kind) if kind else None
         key = "AddCategory:%s" % norm(ast.unparse(a.test))
@@ -421,8 +426,10 @@ def r6_registration(rep, ctx, RID="C12.R6"):
                         defs[x.id].append(st)
     asserts = []
     for a in own_nodes(fn.node):
-        if isinstance(a, ast.Assert) and isinstance(a.test, ast.Compare) and isinstance(a.test.left, ast.Name) and a.test.left.id == "default_value":
-            asserts.append(a)
+        if isinstance(a, ast.Assert):
+            tt_ = res.term(a.test)
+            if tt_[0] == "op" and tt_[1] in TOPS and len(tt_[2]) == 2 and any(x[0] == "param" and x[2] == "default_value" for x in alternatives(tt_[2][0])):
+                asserts.append(a)
     rep.floor(RID, "default-value assertions", len(asserts), 2)
     # (1) no re-definition of the asserted variables between an assertion and the construction
     for a in asserts:
@@ -480,7 +487,7 @@ def r6_registration(rep, ctx, RID="C12.R6"):
                   facts={"entry": fn.qual, "offending_exit": "CategoryInfo(...) at line %d" % ctor[0].lineno})
     # (3) inside the validating branch each limit is asserted unless it is None
     for kind in ("min", "max"):
-        a_nodes = {cfg.node_of(a) for a in asserts if _limit_kind(res.term(a.test.comparators[0])) == kind}
+        a_nodes = {cfg.node_of(a) for a in asserts if _limit_kind(res.term(a.test)[2][1]) == kind}
         none_edges = set()
         for nid in cfg.nodes("test"):
             e = cfg.ast[nid]
